@@ -18,7 +18,12 @@ import UF.Proofs.RegexFast
   `modelPat` answers `none` outside the domain on which these models are exact with respect to Go:
   a non-ASCII pattern or target (Go's engine works on runes, the model on bytes), a line feed in the
   target of a mask pattern (outside the documented mask language: `.` of `.*` does not match it), a
-  regular expression outside the parser's subset (which includes the ones Go rejects).
+  regular expression outside the parser's subset (which includes the ones Go rejects; and, group P3 /
+  REVIEW2 F3, a `$match-case` expression that has a source of case-folded literals — a class `[xX]`, an
+  alternation `x|X` — TOGETHER with a non-capturing group `(?:` or a non-greedy counted repetition `}?`:
+  there Go's flag-blind factoring of alternation prefixes depends on grouping the parse tree does not
+  record).  For every other `$match-case` `/regex/` the expression searched is Go's tree, not the
+  textbook reading of the text (`Re.goTree`; they differ e.g. for `/A.|[aA]/`).
 -/
 namespace UF.I2
 open UF Bytes
